@@ -213,10 +213,11 @@ class Interp:
                     return base[sl.value]
                 except IndexError:
                     raise LaneViolation(f'operand index {sl.value} out of range', node)
-            if isinstance(sl, ast.Slice) and sl.upper is None and sl.step is None:
+            if isinstance(sl, ast.Slice) and sl.step is None:
                 lo = 0 if sl.lower is None else self.ev(sl.lower, env)
-                if isinstance(lo, int):
-                    return base[lo:]
+                hi = None if sl.upper is None else self.ev(sl.upper, env)
+                if isinstance(lo, int) and (hi is None or isinstance(hi, int)):
+                    return base[lo:hi]
             raise ModelError(f'tuple subscript {ast.unparse(node)}')
         if isinstance(base, Arr):
             # accepted: a[..., j, :]   (plane j)   and a[...] (whole array)
@@ -255,6 +256,19 @@ class Interp:
                 else self._arith(op, a, b, node)
         if not isinstance(op, (ast.BitAnd, ast.BitOr, ast.BitXor)):
             raise LaneViolation(f'operator {type(op).__name__} on logic arrays is not one of & | ^', node)
+        if isinstance(a, Arr) or isinstance(b, Arr):   # whole bit-parallel arrays: plane by plane, result is a fresh array
+            f = {ast.BitAnd: lambda x, y: x & y, ast.BitOr: lambda x, y: x | y, ast.BitXor: lambda x, y: x ^ y}[type(op)]
+            if isinstance(a, Arr) and isinstance(b, Arr):
+                if len(a.p) != len(b.p):
+                    raise LaneViolation('whole-array operation between arrays with different plane counts', node)
+                return Arr([f(x, y) & M for x, y in zip(a.p, b.p)], name='tmp', prov=pv)
+            arr, other = (a, b) if isinstance(a, Arr) else (b, a)
+            o = self.as_plane(other, node) if not isinstance(other, int) else (M if other & 1 else 0)
+            if isinstance(other, int) and other not in (0, 0xff, -1):
+                raise ModelError(f'whole-array operation with constant {other}')
+            if isinstance(other, int):
+                o = M if other else 0
+            return Arr([f(x, o) & M for x in arr.p], name='tmp', prov=pv)
         if isinstance(a, U8) or isinstance(b, U8):
             if isinstance(a, P) or isinstance(b, P):
                 # bool array combined with uint8 array: bool is promoted to 0/1
@@ -298,6 +312,14 @@ class Interp:
                 raise ModelError(f'{name} keyword {extra}')
             if 'out' in kw:
                 out = self.ev(kw['out'], env)
+                if isinstance(out, View) and 'where' not in kw:      # result written into one plane of a bit-parallel array
+                    out.arr.p[out.j] = self.as_plane(r, node)
+                    return out                                       # numpy returns the out buffer itself: an alias of that plane
+                if isinstance(out, Arr) and isinstance(r, Arr) and 'where' not in kw:
+                    if len(out.p) != len(r.p):
+                        raise LaneViolation('whole-array out= between arrays with different plane counts', node)
+                    out.p[:] = list(r.p)
+                    return out
                 if not isinstance(out, U8) or not isinstance(r, U8):
                     raise ModelError(f'{name}(out=) on non-uint8 values')
                 if 'where' in kw:
@@ -349,6 +371,10 @@ class Interp:
                     new = self.binop(aug, cur, value, node)
                     cur.b = list(self.as_u8(new, node).b)   # in-place on the array object
                     return
+                if isinstance(cur, Arr):     # in place on the array object the name is bound to (possibly an operand!)
+                    new = self.binop(aug, cur, value, node)
+                    cur.p[:] = list(new.p)
+                    return
                 if cur is None:
                     raise ModelError(f'augmented assignment to unbound {target.id}')
                 if isinstance(cur, P):
@@ -360,6 +386,15 @@ class Interp:
                 env[target.id] = self.binop(aug, cur, value, node)
                 return
             env[target.id] = value
+            return
+        if isinstance(target, (ast.Tuple, ast.List)) and aug is None:
+            if not isinstance(value, tuple):
+                raise ModelError(f'unpacking a {type(value).__name__}')
+            if len(value) != len(target.elts) or any(isinstance(t, ast.Starred) for t in target.elts):
+                raise LaneViolation(f'`{ast.unparse(node)[:80]}`: cannot unpack {len(value)} operand(s) into {len(target.elts)} names '
+                                    f'(ValueError for this number of operands)', node)
+            for t, v in zip(target.elts, value):
+                self.store(t, v, env, node)
             return
         if isinstance(target, ast.Subscript):
             base = self.ev(target.value, env)
@@ -374,7 +409,7 @@ class Interp:
             if isinstance(ref, Arr):       # a[...] = x
                 if isinstance(value, Arr):
                     if aug is not None:
-                        raise ModelError('augmented whole-array store')
+                        value = self.binop(aug, ref, value, node)
                     if len(value.p) != len(ref.p):
                         raise LaneViolation('whole-array copy between arrays with different plane counts', node)
                     ref.p[:] = list(value.p)
@@ -403,11 +438,65 @@ class Interp:
                              f'(ValueError: non-broadcastable output operand)', node)
 
     def exec_block(self, stmts, env):
-        for st in stmts:
+        for i, st in enumerate(stmts):
+            if isinstance(st, ast.If):
+                w = self.whole_array_test(st.test, env)
+                if w is not None:
+                    return self.split_worlds(st, w, stmts[i + 1:], env)
             r = self.exec_stmt(st, env)
             if r is not _NORET:
                 return r
         return _NORET
+
+    def whole_array_test(self, test, env):
+        """`np.any(x)` / `x.any()` / `not np.any(x)` -> (plane of x, polarity): a condition on the *whole array*."""
+        pol = True
+        while isinstance(test, ast.UnaryOp) and isinstance(test.op, ast.Not):
+            pol = not pol
+            test = test.operand
+        if isinstance(test, ast.Call) and not test.keywords:
+            nm = attr_chain(test.func) or ''
+            arg = None
+            if nm in ('np.any', 'numpy.any', 'any') and len(test.args) == 1:
+                arg = test.args[0]
+            elif isinstance(test.func, ast.Attribute) and test.func.attr == 'any' and not test.args:
+                arg = test.func.value
+            if arg is not None:
+                v = self.ev(arg, env)
+                if isinstance(v, (P, View)):
+                    return self.as_plane(v, test), pol
+                if isinstance(v, U8):
+                    x = 0
+                    for b in v.b:
+                        x |= b
+                    return x, pol
+        return None
+
+    def split_worlds(self, st, w, rest, env):
+        """A branch on np.any(x): lanes are combined in one array, so a lane where x is false may run through either arm
+        depending on the *other* lanes. Both arms (each followed by the rest of the block) are run; on the rows where x is
+        false they must produce the same arrays, otherwise the result of a lane depends on its neighbours."""
+        import copy as _copy
+        x, pol = w
+        M = self.sp.MASK
+        env_some = env                       # world "some lane has x": every row can occur
+        env_none = _copy.deepcopy(env)       # world "no lane has x": only rows with x false occur
+        arm_some, arm_none = (st.body, st.orelse) if pol else (st.orelse, st.body)
+        r_some = self.exec_block(list(arm_some) + list(rest), env_some)
+        r_none = self.exec_block(list(arm_none) + list(rest), env_none)
+        rows = M & ~x
+        for name, a in env_some.items():
+            b = env_none.get(name)
+            pa = a.p if isinstance(a, Arr) else a.b if isinstance(a, U8) else None
+            pb = b.p if isinstance(b, Arr) else b.b if isinstance(b, U8) else None
+            if pa is None or pb is None or not (name == 'out' or name in getattr(self, 'observed', ('out',))):
+                continue
+            for j, (u, v) in enumerate(zip(pa, pb)):
+                if (u ^ v) & rows:
+                    row = ((u ^ v) & rows).bit_length() - 1
+                    raise LaneViolation(f'`if {ast.unparse(st.test)}` tests the whole array: for operand combination #{row} (where the tested value is false) '
+                                        f'`{name}` differs between the two arms, so the result of a lane depends on what the other lanes of the same array hold', st)
+        return r_some
 
     def exec_stmt(self, st, env):
         self.steps += 1
